@@ -3,6 +3,8 @@
    statement was false ([flags] text); with the repairs mirrored in the model the former witnesses are fixed points after one
    pass.  No general proof exists.  Proved: the instances, and that the second pass never panics either. *)
 Require Import Bebop.front.Tok Bebop.front.Parse Bebop.front.Fmt Bebop.front.FmtFacts Bebop.front.FmtSafe.
+Require Import Bebop.front.LexInv Bebop.front.ParseInv Bebop.front.FmtInv.
+From Coq Require Import List.
 
 Definition C17_partial_statement : Prop :=
   (forall input y s, format input = POk y s -> format y <> PPanic) /\
@@ -14,3 +16,17 @@ Proof.
   split; [exact typed_enum_17|]. split; [exact array2_17|]. split; [exact import_17|exact flags_17].
 Qed.
 Print Assumptions C17_partial.
+
+(* Idempotence itself, proved on the core sub-language of front/ParseInv.v - for EVERY list of struct definitions and EVERY
+   layout of its text (any horizontal whitespace, CRLF, blank lines between definitions): Format's output depends on the
+   structs only (it is the canonical text ctext), and Format maps it to itself, byte for byte. *)
+Definition C17_structs_statement : Prop :=
+  forall sl l tail,
+    Forall sdef_ok sl -> map snd l = schema_lex sl -> Forall (fun p => hws (fst p)) l -> sep_ok l -> hws tail ->
+    exists y, (exists s, format (render l tail) = POk y s) /\ y = ctext (map bdef sl) /\ (exists s, format y = POk y s).
+Theorem C17_structs : C17_structs_statement.
+Proof.
+  intros sl l tail H1 H2 H3 H4 H5. destruct (structs_format_laws sl l tail H1 H2 H3 H4 H5) as (y & Hf & Hy & Hi & _).
+  exists y. auto.
+Qed.
+Print Assumptions C17_structs.
